@@ -1,4 +1,5 @@
 pub mod engine;
+pub mod fuzz;
 pub mod gen;
 pub mod model;
 pub mod obs;
